@@ -1083,12 +1083,13 @@ def _more_classes(fn, F, M, lp, li, phis, cg):
                     li.witness = "cursor advances one element per iteration and the back edge requires the element at the cursor to be non-zero (terminated string/array)"
                     return
         # strchr advance: p' = strchr(p, c) + 1, exit when strchr returns NULL
-        for v, b in backs:
-            e = M.match(("gep", ("bind", "s", ("call", "strchr", [("inst", p.id), ANY])), [1]), v, {})
-            if e is not None and any(M.find_fact(("eq", ("inst", e["s"][1]), 0), F.edge_facts(b2, s2))[0] is not None for (b2, s2) in lp["exits"]):
-                li.cls = "C"
-                li.witness = "cursor moves past the next separator found by strchr each iteration; exit when strchr finds none (NUL-terminated string)"
-                return
+        es_ = [M.match(("gep", ("bind", "s", ("call", "strchr", [("inst", p.id), ANY])), [1]), v, {}) for v, b in backs]
+        if es_ and all(e is not None for e in es_) and all(
+                any(M.find_fact(("eq", ("inst", e["s"][1]), 0), F.edge_facts(b2, s2))[0] is not None for (b2, s2) in lp["exits"]) for e in es_):
+            # EVERY back edge carries the cursor past the separator that was found (one that leaves it on the separator finds it again for ever)
+            li.cls = "C"
+            li.witness = "cursor moves past the next separator found by strchr each iteration; exit when strchr finds none (NUL-terminated string)"
+            return
         # list walk with the test on the back edge
         if p.ty.endswith("*"):
             link = all(M.match(("load", ("field", None, None, ("inst", p.id))), v, {}) is not None or M.match(("field", None, None, ("load", ("inst", p.id))), v, {}) is not None for v, b in backs)
